@@ -246,6 +246,42 @@ def run(tier):
     ck.assume("objects of loaded modules are meant to live as long as the interpreter (module cache)")
     handler_unwind(fx, ck)
     run_end_scopes(fx, ck)
+    # ---------------- R9 a root added to the register guard has a remover
+    # `set_reg` roots the incoming value in BytecodeVM.register_guard and unroots the value it overwrites: the guard holds one root per occupied
+    # register.  A function that adds a root to that guard by any other route - `register_guard.guard(v)` before `set_reg(.., v)`, or an allocation
+    # through `&self.register_guard` - leaves a root that nothing removes until the frame exits: one per call that returns an object, per generator
+    # created, per for-in loop started.  A loop of a long-running program keeps every such object alive (live objects grow linearly during the run).
+    import exits as E9
+    ck.rule("R9.register-roots-paired", "every function that roots a value through BytecodeVM.register_guard (guard(), or lending the guard to an allocator) also removes roots "
+                                        "through it (unguard / clear / replace): the guard holds one root per occupied register", floor=2)
+    VM9 = "interpreter::bytecode_vm::BytecodeVM"
+    per9 = {}
+    for p9, f9 in sorted(fx.fns.items()):
+        if f9.derived:
+            continue
+        for bi, t in f9.calls():
+            for ai, a in enumerate(t[2]):
+                if a[0] in ("c", "m") and not a[1][1]:
+                    fl = E9.field_of_ref(f9, a[1][0])
+                    if fl and fl[0] == VM9 and fl[2] == "register_guard":
+                        nm = (t[1].get("d") or "").split("::")[-1]
+                        kind = "remove" if (ai == 0 and nm in ("unguard", "clear", "replace", "take", "swap")) else "add"
+                        per9.setdefault(f9.parent if f9.closure else f9.path, []).append((kind, nm, t[6]))
+    ck.anchor(any(k == "add" for v in per9.values() for k, _, _ in v) and any(k == "remove" for v in per9.values() for k, _, _ in v),
+              "functions adding and removing roots through BytecodeVM.register_guard (found %d functions)" % len(per9))
+    for top9, uses9 in sorted(per9.items()):
+        adds = [u for u in uses9 if u[0] == "add"]
+        rems = [u for u in uses9 if u[0] == "remove"]
+        if not adds:
+            ck.instance("R9.register-roots-paired", "%s: removes roots only (%s)" % (top9, ", ".join(sorted({u[1] for u in rems}))), F.short_span(rems[0][2]), nontrivial=False)
+            continue
+        ok9 = bool(rems)
+        ck.instance("R9.register-roots-paired", "%s: roots through register_guard via %s" % (top9, ", ".join(sorted({u[1] for u in adds}))), F.short_span(adds[0][2]), ok=ok9)
+        if not ok9:
+            ck.finding("R9.register-roots-paired", "R9.register-roots-paired/%s" % top9, F.short_span(adds[0][2]),
+                       "`%s` adds a root to the frame's register guard (%s) and never removes one: the value is rooted a second time when it is written to its register, "
+                       "and only that second root goes away when the register is overwritten - `for (..) s += mk(i).i` keeps every object `mk` returned alive until the "
+                       "frame exits" % (top9, ", ".join(sorted({u[1] for u in adds}))))
     return ck.finish()
 
 
